@@ -13,8 +13,8 @@ def members_instantiate(prog, chk, rid, classes):
     for unit, d in prog.errors:
         by_header.setdefault(os.path.basename(d.get("file", "")), []).append(d)
     for cls in classes:
-        insts = C.class_insts(prog, cls)
         errs = by_header.get(cls + ".hpp", [])
+        insts = {} if errs else C.class_insts(prog, cls)
         if errs:
             seen = set()
             for d in errs:
